@@ -57,6 +57,20 @@ fn case(k: usize, n: usize) -> Result<(), String> {
     ensure!((p1 - seq).abs() <= 4.0 * (n.max(1) as f64) * f64::EPSILON * mag, "workers={} length={}: dot_f64 = {} differs from dot = {} by more than reassociation allows", k, n, p1, seq);
     ensure!(p1.to_bits() == p2.to_bits(), "workers={} length={}: repeated calls differ: {} vs {}", k, n, p1, p2);
     ensure!(p1.to_bits() == p3.to_bits(), "workers={} length={}: a.b != b.a: {} vs {}", k, n, p1, p3);
+    // non-finite entries: one infinite product (all others finite) gives that infinity under every association, a NaN
+    // entry gives NaN; threaded and sequential must agree
+    if n > 0 {
+        let (mut a, b) = integer_data(n);
+        let j = (n * 2) / 3;
+        for v in [f64::INFINITY, f64::NEG_INFINITY, f64::NAN, 1e308] {
+            a[j] = v;
+            let (va, vb) = (Vector::create(a.clone()), Vector::create(b.clone()));
+            let (seq, par) = (va.dot(&vb), va.dot_f64(&vb));
+            let want = if v == 1e308 { seq } else { v * b[j] };
+            ensure!(seq.to_bits() == want.to_bits() || (seq.is_nan() && want.is_nan()), "sequential dot with entry {} at {}: {} expected {}", v, j, seq, want);
+            ensure!(par.to_bits() == seq.to_bits() || (par.is_nan() && seq.is_nan()), "workers={} length={}: entry {} at index {}: dot_f64 = {} but dot = {}", k, n, v, j, par, seq);
+        }
+    }
     // call sequences on one thread: after a long call, shorter ones (fewer elements than workers, none at all) must not see stale state
     for m in [0usize, k.saturating_sub(1).min(n), 1usize.min(n)] {
         let (a, b) = integer_data(m);
@@ -70,7 +84,7 @@ fn case(k: usize, n: usize) -> Result<(), String> {
 fn main() {
     let ctx = Ctx::from_args("C16");
     ctx.level("model_checking");
-    ctx.rule("Configuration sweep (guard off, real OS threads): every worker count k = 1..min(16, CPUs available) - set through the CPU affinity of the calling thread and confirmed by num_cpus::get() == k - x every length 0..=200: integer-valued data must be bit-identical to the sequential dot and to an exact i128 dot product; reassociation-sensitive data must stay within 4 n eps sum|a_i b_i| and be bit-identical over repeated calls; each case ends with a sequence of shorter calls (length 0, < workers, 1) on the same thread, which must be exact (no state carried between calls). Non-trivial: lengths below, equal to, above and not divisible by the worker count with k >= 2.");
+    ctx.rule("Configuration sweep (guard off, real OS threads): every worker count k = 1..min(16, CPUs available) - set through the CPU affinity of the calling thread and confirmed by num_cpus::get() == k - x every length 0..=200: integer-valued data must be bit-identical to the sequential dot and to an exact i128 dot product; reassociation-sensitive data must stay within 4 n eps sum|a_i b_i| and be bit-identical over repeated calls; one infinite, NaN or 1e308 entry among small integers (a value every association agrees on) must give the sequential result; each case ends with a sequence of shorter calls (length 0, < workers, 1) on the same thread, which must be exact (no state carried between calls). Non-trivial: lengths below, equal to, above and not divisible by the worker count with k >= 2.");
     ctx.assume("the sweep runs free (uncontrolled OS scheduling): it decides the configuration/length quantifiers; scheduling independence is decided by the shuttle exploration");
     let cpus = allowed_cpus();
     let kmax = cpus.len().min(16);
